@@ -6,6 +6,8 @@ import shutil
 from .. import common, worldgen
 
 # (profile, overrides, share) — shares are scaled to the tier's world count
+BATCHING_FLAGS = {"scheduler_enable_batching": True, "enforce_deadlines": True, "ilp_goal": "max_goodput", "scheduler_lookahead": 0,
+                  "drop_skipped_tasks": False}
 BASE_MIX = [
     ("greedy", {}, 0.33),
     ("greedy", {"zero_runtime": True, "specific_ids": 0.4, "multi_instance": 0.6}, 0.12),
@@ -14,6 +16,10 @@ BASE_MIX = [
     ("greedy", {"max_pools": 1, "max_workers": 2, "max_q": 2, "frequencies": [-1, 1, 3], "delays": [0, 1, 3]}, 0.15),
     ("planner", {}, 0.20),
     ("clockwork", {}, 0.10),
+    # the batching mode of the planners: small bursts of model-serving requests (see worldgen: small_burst)
+    ("clockwork", {"small_burst": True, "flags": dict(BATCHING_FLAGS, scheduler="ILP")}, 0.04),
+    ("clockwork", {"small_burst": True, "flags": dict(BATCHING_FLAGS, scheduler="TetriSched_CPLEX", scheduler_time_discretization=1,
+                                                      scheduler_plan_ahead=12)}, 0.04),
 ]
 
 N_WORLDS = {"quick": 320, "thorough": 7000}
